@@ -4,7 +4,7 @@ set -u
 patch=$1; id=$2; tier=${3:-quick}
 cd /repo || exit 2
 if ! git diff --quiet; then echo "repo dirty"; exit 2; fi
-git apply "$patch" || { echo "patch does not apply"; exit 2; }
+git apply "$patch" 2>/dev/null || patch -p1 -F 3 -s --no-backup-if-mismatch < "$patch" || { git checkout -- .; echo "patch does not apply"; exit 2; }
 cd /verif
 ./check "$id" --tier "$tier" 2>&1 | grep -E "VIOLATION|KNOWN-FINDING|OK|MACHINERY|machinery" | cut -c1-300 | head -12
 rc=${PIPESTATUS[0]}
